@@ -220,6 +220,21 @@ pub fn verify(bytes: &[u8], root: &RKey) -> Result<Content, String> {
 }
 
 pub fn verify_content(content: &Content, root: &RKey) -> Result<(), String> {
+    verify_content_mode(content, root, false)
+}
+
+/// what may be accepted through the parser for the deprecated third-party format followed by
+/// the ordinary verification: a third-party block may carry signature version 0, but its
+/// external signature is still over the payload *and the previous block's signature* (the
+/// current layout, declaring the block's version) - never over the deprecated layout that only
+/// names the previous key
+pub fn verify_bound_lenient(bytes: &[u8], root: &RKey) -> Result<Content, String> {
+    let (_, content) = content_of(bytes)?;
+    verify_content_mode(&content, root, true)?;
+    Ok(content)
+}
+
+fn verify_content_mode(content: &Content, root: &RKey, lenient: bool) -> Result<(), String> {
     let auth = &content.blocks[0];
     if auth.external.is_some() {
         return Err("authority block with external signature".to_string());
@@ -230,7 +245,7 @@ pub fn verify_content(content: &Content, root: &RKey) -> Result<(), String> {
         let prev = &content.blocks[i - 1];
         let b = &content.blocks[i];
         let ext_sig = b.external.as_ref().map(|(_, s)| &s[..]);
-        if b.external.is_some() && b.version != 1 {
+        if b.external.is_some() && b.version != 1 && !lenient {
             return Err(format!("block {i}: third-party block with signature version {}", b.version));
         }
         let msg = block_payload(
@@ -242,7 +257,11 @@ pub fn verify_content(content: &Content, root: &RKey) -> Result<(), String> {
         )?;
         verify_sig(&prev.next_key, &msg, &b.signature).map_err(|e| format!("block {i}: {e}"))?;
         if let Some((k, s)) = &b.external {
-            let msg = external_payload(&b.payload, &prev.signature);
+            let mut msg = external_payload(&b.payload, &prev.signature);
+            if lenient && b.version == 0 {
+                // same layout, declaring version 0 (bytes 19..23 hold the version)
+                msg[19..23].copy_from_slice(&0u32.to_le_bytes());
+            }
             verify_sig(k, &msg, s).map_err(|e| format!("block {i} external: {e}"))?;
         }
     }
